@@ -741,6 +741,174 @@ theorem block_rotate_full_turn (b : Block) :
       | none => rfl
       | some d => rfl
 
+/-! ### blocks with several multi-location children (several pin types) -/
+
+/-- rotating a site back undoes the rotation (axial index untouched) -/
+theorem rotCell_neg (k : Int) (c : Int × Int × Int) : rotCell (-k) (rotCell k c) = c := by
+  obtain ⟨i, j, z⟩ := c
+  simp only [rotCell, Prod.mk.eta, rotateIndex_neg]
+
+private theorem count_map_inj {α β} [BEq α] [LawfulBEq α] [BEq β] [LawfulBEq β] (f : α → β) (hf : Function.Injective f)
+    (l : List α) (a : α) : (l.map f).count (f a) = l.count a := by
+  induction l with
+  | nil => rfl
+  | cons x xs ih =>
+    simp only [List.map_cons, List.count_cons, ih]
+    by_cases h : x = a
+    · simp [h]
+    · have : f x ≠ f a := fun e => h (hf e)
+      simp [h, this]
+
+theorem rotCell_injective (k : Int) : Function.Injective (rotCell k) := by
+  intro a b h
+  have := congrArg (rotCell (-k)) h
+  rwa [rotCell_neg, rotCell_neg] at this
+
+/-- **the sites of a multi-location child after the rotation are exactly that child's own sites, rotated**:
+membership, multiplicity (the multiset of sites is the rotated multiset), order and number of sites -/
+theorem multi_sites_rotated (k : Int) (cells : List (Int × Int × Int)) (s : Int × Int × Int) :
+    (s ∈ cells.map (rotCell k) ↔ rotCell (-k) s ∈ cells) ∧
+    (cells.map (rotCell k)).count (rotCell k s) = cells.count s ∧
+    (cells.map (rotCell k)).length = cells.length := by
+  refine ⟨⟨fun h => ?_, fun h => ?_⟩, ?_, by simp⟩
+  · obtain ⟨c, hc, rfl⟩ := List.mem_map.mp h
+    rwa [rotCell_neg]
+  · refine List.mem_map.mpr ⟨rotCell (-k) s, h, ?_⟩
+    have := rotCell_neg (-k) s
+    rwa [Int.neg_neg] at this
+  · exact count_map_inj (rotCell k) (rotCell_injective k) cells s
+
+/-- two children at disjoint sites stay at disjoint sites; the same sites stay the same sites -/
+theorem multi_disjoint_stay_disjoint (k : Int) (A B : List (Int × Int × Int))
+    (h : ∀ s ∈ A, s ∉ B) : ∀ s ∈ A.map (rotCell k), s ∉ B.map (rotCell k) := by
+  intro s hs hb
+  have ha := ((multi_sites_rotated k A s).1).mp hs
+  have hb' := ((multi_sites_rotated k B s).1).mp hb
+  exact h _ ha hb'
+
+/-- **every site of a multi-location child keeps its place in the list and its axial index, and its centre is
+rotated by k·60° counter-clockwise about the block centre** (integer-coefficient form of `rot_geom_iter`, both
+orientations, every integer k) -/
+theorem multi_site_geom (cu : Bool) (k : Int) (cells : List (Int × Int × Int)) (n : Nat) (h : n < cells.length) :
+    ∃ s, (cells.map (rotCell k))[n]? = some s ∧ s.2.2 = cells[n].2.2 ∧
+      ((2 : Int) ^ (k % 6).toNat * (coef cu s.1 s.2.1).1, (2 : Int) ^ (k % 6).toNat * (coef cu s.1 s.2.1).2) =
+        iter (R60x2 cu) (k % 6).toNat (coef cu cells[n].1 cells[n].2.1) := by
+  refine ⟨rotCell k cells[n], by simp [List.getElem?_map, List.getElem?_eq_getElem h], rfl, ?_⟩
+  exact rot_geom_iter cu k (cells[n].1, cells[n].2.1)
+
+/-- `rotChild` at k < 6 has a left inverse, `rotChild` at (6 − k) mod 6 -/
+theorem rotChild_left_inv (k : Nat) (hk : k < 6) (c : ChildLoc) :
+    rotChild (((6 - k) % 6 : Nat) : Int) (rotChild k c) = c := by
+  have hl : (6 - k) % 6 < 6 := Nat.mod_lt _ (by decide)
+  have h := block_rotate_add k ((6 - k) % 6) hk hl ⟨true, [c], 0, [], none⟩
+  have h0 : (k + (6 - k) % 6) % 6 = 0 := by omega
+  rw [h0] at h
+  have hz := (block_rotate_full_turn ⟨true, [c], 0, [], none⟩).2
+  have hc := congrArg Block.children h
+  simp only [rotateBlock, if_true, List.map_cons, List.map_nil] at hc
+  have hz' := congrArg Block.children hz
+  simp only [rotateBlock, if_true, List.map_cons, List.map_nil] at hz'
+  have e : [rotChild (((6 - k) % 6 : Nat) : Int) (rotChild (k : Int) c)] = [c] := by
+    rw [hc]; simpa using hz'
+  simpa using e
+
+theorem rotChild_injective (k : Nat) (hk : k < 6) : Function.Injective (rotChild (k : Int)) := by
+  intro a b h
+  have := congrArg (rotChild (((6 - k) % 6 : Nat) : Int)) h
+  rwa [rotChild_left_inv k hk, rotChild_left_inv k hk] at this
+
+/-- **every child is rotated on its own, whatever the other children are**: the n-th child after the rotation
+is `rotChild` of the n-th child before — it depends on no other child (not on children with the same number of
+sites, not on the position in the list) — and **distinct children stay distinct** (two children have the same
+locator after the rotation iff they had the same locator before). -/
+theorem block_rotate_children_independent (k : Nat) (hk : k < 6) (b : Block) (hg : b.hasGrid = true) :
+    (∀ n (h : n < b.children.length), (rotateBlock k b).children[n]? = some (rotChild k b.children[n])) ∧
+    (∀ m n (hm : m < b.children.length) (hn : n < b.children.length),
+      ((rotateBlock k b).children[m]? = (rotateBlock k b).children[n]? ↔ b.children[m] = b.children[n])) := by
+  have h1 : ∀ n (h : n < b.children.length), (rotateBlock k b).children[n]? = some (rotChild k b.children[n]) := by
+    intro n h
+    simp [rotateBlock, hg, List.getElem?_map, List.getElem?_eq_getElem h]
+  refine ⟨h1, fun m n hm hn => ?_⟩
+  rw [h1 m hm, h1 n hn]
+  constructor
+  · intro h; exact rotChild_injective k hk (Option.some.inj h)
+  · intro h; rw [h]
+
+/-- the rotated block does not depend on the order in which the children are listed: rotating commutes with every
+rearrangement of the child list -/
+theorem block_rotate_children_perm (k : Int) (b : Block) (cs : List ChildLoc) (hp : cs.Perm b.children) :
+    ((rotateBlock k { b with children := cs }).children).Perm (rotateBlock k b).children := by
+  simp only [rotateBlock]
+  cases b.hasGrid
+  · simpa using hp
+  · simpa using hp.map _
+
+example : (rotateBlock 1 (Block.mk true [.multi [(1, 0, 0), (-1, 1, 0), (0, -1, 0)],
+    .multi [(0, 1, 0), (-1, 0, 0), (1, -1, 0)]] 0 [] none)).children =
+    [.multi [(0, 1, 0), (-1, 0, 0), (1, -1, 0)], .multi [(-1, 1, 0), (0, -1, 0), (1, 0, 0)]] := by decide
+example : ∀ s ∈ [((1 : Int), (0 : Int), (0 : Int)), (-1, 1, 0), (0, -1, 0)], s ∉ [((0 : Int), (1 : Int), (0 : Int)), (-1, 0, 0), (1, -1, 0)] := by
+  decide
+
+/-! ### HexAssembly.rotate -/
+
+/-- **rotating an assembly rotates every block, each on its own**: same number of blocks, the n-th block of the
+result is `rotateBlock` of the n-th block -/
+theorem assembly_rotate_blocks (k : Int) (bs : List Block) :
+    (rotateAssembly k bs).length = bs.length ∧
+    ∀ n (h : n < bs.length), (rotateAssembly k bs)[n]? = some (rotateBlock k bs[n]) := by
+  refine ⟨by simp [rotateAssembly], fun n h => ?_⟩
+  simp [rotateAssembly, List.getElem?_map, List.getElem?_eq_getElem h]
+
+/-- two assembly rotations compose like block rotations (children, boundary vectors and displacement of every
+block as after one rotation by (k + l) mod 6; orientations advance by 60k + 60l) -/
+theorem assembly_rotate_add (k l : Nat) (hk : k < 6) (hl : l < 6) (bs : List Block) :
+    rotateAssembly l (rotateAssembly k bs) =
+      bs.map (fun b => { rotateBlock (((k + l) % 6 : Nat) : Int) b with
+        orientation := b.orientation + (k : Int) * 60 + (l : Int) * 60 }) := by
+  simp only [rotateAssembly, List.map_map]
+  apply List.map_congr_left
+  intro b _
+  exact block_rotate_add k l hk hl b
+
+/-- a full turn leaves every block's children, boundary vectors and displacement unchanged -/
+theorem assembly_rotate_full_turn (bs : List Block) :
+    rotateAssembly 6 bs = bs.map (fun b => { b with orientation := b.orientation + 360 }) := by
+  simp only [rotateAssembly]
+  apply List.map_congr_left
+  intro b _
+  exact (block_rotate_full_turn b).1
+
+/-- **the guard**: a rotation is carried out exactly when the remainder of the angle modulo 60° is within the
+tolerance of 0 or of 60°; a refused rotation returns nothing (and, in the code, touches nothing: the check comes
+before the loop) -/
+theorem hex_assembly_rotate_guard (third rem tol : Rat) (k : Int) (bs : List Block) :
+    (rotateHexAssembly third rem tol k bs = some (rotateAssembly k bs) ↔ (rem ≤ tol ∨ third - rem ≤ tol)) ∧
+    (rotateHexAssembly third rem tol k bs = none ↔ (tol < rem ∧ tol < third - rem)) := by
+  unfold rotateHexAssembly hexAssemblyAccepts
+  by_cases h : min rem (third - rem) ≤ tol
+  · have h' : rem ≤ tol ∨ third - rem ≤ tol := by
+      rcases min_choice rem (third - rem) with e | e <;> rw [e] at h
+      · exact Or.inl h
+      · exact Or.inr h
+    simp only [h, decide_true, if_true, true_iff, reduceCtorEq, false_iff, not_and, not_lt]
+    refine ⟨h', fun h1 => ?_⟩
+    rcases h' with a | a
+    · exact absurd a (not_le.mpr h1)
+    · exact a
+  · have h1 : tol < rem := by
+      by_contra hc
+      exact h (le_trans (min_le_left _ _) (not_lt.mp hc))
+    have h2 : tol < third - rem := by
+      by_contra hc
+      exact h (le_trans (min_le_right _ _) (not_lt.mp hc))
+    simp only [h, decide_false, Bool.false_eq_true, if_false, reduceCtorEq, false_iff, not_or, not_le, true_iff]
+    exact ⟨⟨h1, h2⟩, h1, h2⟩
+
+example : rotateHexAssembly (21/20) (1/2000000000000) (1/1000000000000) 1
+    [Block.mk true [.index 1 0 3] 0 [] none, Block.mk true [.multi [(1, 0, 0)]] 60 [] none] =
+    some [Block.mk true [.index 0 1 3] 60 [] none, Block.mk true [.multi [(0, 1, 0)]] 120 [] none] := by decide +kernel
+example : rotateHexAssembly (21/20) (1/2) (1/1000000000000) 1 [] = none := by decide +kernel
+
 /-! ### Euclidean form (any field with a square root of 3, e.g. ℝ) -/
 
 /-- the centre of cell c in an arbitrary field K containing a square root `s` of 3 (K = ℝ, s = √3 is
